@@ -5,7 +5,7 @@
    An IntegerSet is its [ranges] list; [denote rs z] : z is a member; [canonical rs] : sorted,
    non-empty, non-overlapping, non-adjacent ranges (Spec/IntSetSpec.v).  Unbounded: every list of
    ranges over Z.  Loops of intersection/difference take fuel; length a + length b < fuel suffices. *)
-From PV Require Import Lib.Py Spec.IntSetSpec Model.IntegerSet Proofs.C33_intset.
+From PV Require Import Lib.Py Spec.IntSetSpec Model.IntegerSet Proofs.C33_intset Proofs.C33_laws.
 From Coq Require Import Sorted.
 Open Scope Z_scope.
 
@@ -103,6 +103,58 @@ Theorem c33_empty_iff : forall rs, canonical rs -> (empty rs = true <-> forall z
 Proof. exact empty_iff. Qed.
 Print Assumptions c33_empty_iff.
 
+(* ---- algebraic laws at the level of the representation (what __eq__ compares): because canonical
+   forms are unique, set-algebra identities hold as equalities of the returned ranges lists.
+   No operation returns more ranges than it was given, so the fuel bounds mention the inputs only ---- *)
+Theorem c33_canonical_ext : forall a b, canonical a -> canonical b ->
+  (forall z, denote a z <-> denote b z) -> a = b.
+Proof. exact canonical_ext_denote. Qed.
+Print Assumptions c33_canonical_ext.
+
+(* a | b == b | a and (a | b) | c == a | (b | c) for arbitrary ranges lists; a | a == a, a | {} == a *)
+Theorem c33_union_laws :
+  (forall a b, union a b = union b a) /\
+  (forall a b c, union (union a b) c = union a (union b c)) /\
+  (forall a, canonical a -> union a a = a /\ union a [] = a /\ union [] a = a).
+Proof. exact union_laws. Qed.
+Print Assumptions c33_union_laws.
+
+Theorem c33_inter_comm : forall fuel a b, canonical a -> canonical b -> (length a + length b < fuel)%nat ->
+  exists r, intersection fuel a b = Ok r /\ intersection fuel b a = Ok r.
+Proof. exact inter_comm. Qed.
+Print Assumptions c33_inter_comm.
+
+(* a ^ b == (a | b) - (a & b) *)
+Theorem c33_symdiff_law : forall fuel a b, canonical a -> canonical b ->
+  (2 * (length a + length b) < fuel)%nat ->
+  exists i r, intersection fuel a b = Ok i /\ symmetric_difference fuel a b = Ok r /\
+              difference fuel (union a b) i = Ok r.
+Proof. exact symdiff_law. Qed.
+Print Assumptions c33_symdiff_law.
+
+(* De Morgan for the relative complement: a - (b | c) == (a - b) & (a - c) *)
+Theorem c33_demorgan_law : forall fuel a b c, canonical a -> canonical b -> canonical c ->
+  (2 * length a + length b + length c < fuel)%nat ->
+  exists d1 d2 r, difference fuel a b = Ok d1 /\ difference fuel a c = Ok d2 /\
+                  difference fuel a (union b c) = Ok r /\ intersection fuel d1 d2 = Ok r.
+Proof. exact demorgan_law. Qed.
+Print Assumptions c33_demorgan_law.
+
+(* a & b == a - (a - b) *)
+Theorem c33_double_diff_law : forall fuel a b, canonical a -> canonical b ->
+  (2 * length a + length b < fuel)%nat ->
+  exists d r, difference fuel a b = Ok d /\ intersection fuel a b = Ok r /\ difference fuel a d = Ok r.
+Proof. exact double_diff_law. Qed.
+Print Assumptions c33_double_diff_law.
+
+(* the results never have more ranges than the operands together *)
+Theorem c33_result_sizes :
+  (forall a b, (length (union a b) <= length a + length b)%nat) /\
+  (forall fuel a b r, intersection fuel a b = Ok r -> (length r <= length a + length b)%nat) /\
+  (forall fuel a b r, difference fuel a b = Ok r -> (length r <= length a + length b)%nat).
+Proof. exact result_sizes. Qed.
+Print Assumptions c33_result_sizes.
+
 (* non-vacuity: overlapping, adjacent, nested, duplicated and empty inputs; the hypotheses
    (canonical operands, fuel) are met by constructed sets and the conclusions compute *)
 Example c33_nonvacuous :
@@ -116,5 +168,10 @@ Example c33_nonvacuous :
   contains a 8 = Ok true /\ contains a 4 = Ok false /\ contains a 20 = Ok true /\
   cardinality a = 18 /\ iter b = [-2; 3; 4; 5] ++ rangeZ 25 41 /\
   ranges_eqb a (ctor [IRange 1 3; IRange 20 30; IRange 5 8]) = true /\ ranges_eqb a b = false /\
-  bisect_bs 10 21 a = Ok 3%nat.
+  bisect_bs 10 21 a = Ok 3%nat /\
+  (* the laws, on these sets: both sides compute to the same ranges *)
+  symmetric_difference 13 a b = difference 13 (union a b) [(3, 3); (5, 5); (25, 30)] /\
+  difference 13 a (union b [(7, 22)]) = intersection 13 [(1, 2); (6, 8); (20, 24)] [(1, 3); (5, 6); (23, 30)] /\
+  difference 13 a [(7, 22)] = Ok [(1, 3); (5, 6); (23, 30)] /\
+  intersection 10 a b = difference 10 a [(1, 2); (6, 8); (20, 24)].
 Proof. vm_compute. repeat split. Qed.
